@@ -40,6 +40,9 @@ def str_(ex, x, node=None):
     if isinstance(x, SymObj):
         if ex.is_none(x):
             return 'None'
+        _sv = scalar_view(ex, x)
+        if _sv is not None:
+            return str_(ex, _sv, node)
         if x.cls is not None:
             for k in x.cls.__mro__:
                 if '__str__' in k.__dict__ and k is not object:
@@ -829,6 +832,9 @@ def symval_method(ex, recv, name, args, kwargs, node):
 # ---------------------------------------------------------------------------------------- external calls
 def call_external(ex, f, args, kwargs, node):
     key = (getattr(f, '__module__', None), getattr(f, '__qualname__', getattr(f, '__name__', None)))
+    if any(isinstance(a_, SymObj) for a_ in args) and f not in (isinstance, hasattr, getattr, setattr, type, id, vars, _copy.copy, _copy.deepcopy):
+        # an object known to be exactly a str / int / bool is handed to library code as that scalar
+        args = [(_sv if (_sv := scalar_view(ex, a_)) is not None else a_) for a_ in args]
     if key in ex.stubs:
         return ex.stubs[key](ex, args, kwargs, node)
     import importlib as _importlib
